@@ -237,6 +237,6 @@ def instances(tier):
         if not q:
             out.append(inst_unify([(I, (3,), 8), (I, (3,), 8)], policy, hi))
             out.append(inst_unify([(I, (2,), 8), (I, (2,), 4), (I, (3,), 2)], policy, 4 if policy == "auto" else None))
-            out.append(inst_unify([(("i", "j"), (2, 2), 8), (("j", "i"), (2, 2), 4)], policy, 3 if policy == "auto" else None))
+            out.append(inst_unify([(("i", "j"), (2, 2), 8), (("j", "i"), (2, 2), 4)], policy, 2 if policy == "auto" else None))
     out.append(inst_unify([(I, (2,), 8), (I, (2,), 4)], "coarse", None, with_limit=False))
     return out
